@@ -18,7 +18,7 @@ THOROUGH_MC = QUICK_MC + [("MC_Player", s) for s in ("_sx", "_t3")] + [("MC_Play
 
 def slim(rec):
     """what TLC needs of a record (the file bytes and feature tags stay in the payload only)"""
-    return {k: v for k, v in rec.items() if k not in ("file", "feat", "dur_us")}
+    return {k: v for k, v in rec.items() if k not in ("file", "feat", "dur_us") and (k != "claims" or rec.get("big"))}
 
 
 def gen(ctx, n, seed, par, long=0):
@@ -26,6 +26,36 @@ def gen(ctx, n, seed, par, long=0):
     out = os.path.join(ctx.sub("playgen"), "plays.ndjson")
     ctx.run([vh, "player-gen", "-n", str(n), "-seed", str(seed), "-par", str(par), "-long", str(long), "-out", out], timeout=1800)
     return [json.loads(x) for x in open(out)]
+
+
+def gen_huge(ctx, n, seed):
+    vh = ctx.build(PKG)
+    out = os.path.join(ctx.sub("playhuge"), "huge.ndjson")
+    ctx.run([vh, "player-gen", "-huge", str(n), "-seed", str(seed), "-out", out], timeout=600)
+    return [json.loads(x) for x in open(out)]
+
+
+def judge_big(ctx, recs):
+    """large plays of files with distinguishable events: the attributed judgement (spec/Trace_PlayerBig.tla)"""
+    bad = ctx.validate("Trace_PlayerBig", [slim(r) for r in recs], shards=1, timeout=1500)
+    for idx, info in bad:
+        if info.get("genbug"):
+            raise Machinery("large play outside the property's domain: %s" % json.dumps(info)[:600])
+    return bad
+
+
+def rerun_big(ctx, rec):
+    vh = ctx.build(PKG)
+    d = ctx.sub("replaybig")
+    i, o = os.path.join(d, "in.ndjson"), os.path.join(d, "out.ndjson")
+    inp = {k: rec[k] for k in ("ev", "id", "mode", "file", "sel", "ports", "prior", "big", "feat")}
+    inp.update(tracks=[], sends=[], claims=[], rerr="", err="", panic="", timeout=False, dur_us=0)
+    with open(i, "w") as fh:
+        fh.write(json.dumps(inp) + "\n")
+    ctx.run([vh, "player-rerun", "-in", i, "-out", o], timeout=600)
+    new = json.loads(open(o).read().splitlines()[-1])
+    bad = judge_big(ctx, [new])
+    return bool(bad), new, (bad[0][1] if bad else None)
 
 
 def rerun(ctx, rec, before=()):
@@ -89,10 +119,12 @@ def run(ctx):
     ctx.cov["rule"] = ("multi-track SMF files built through the public API (1-6 tracks, 0-45 events per track, >=13 events on one tick, one-tick / heavy-tick / "
                        "interleaved / random tick patterns, meta and sysex mixed in, tempo changes, identical channel messages across and inside tracks, twin tracks starting with the same run of messages), read with "
                        "ReadTracksFrom(selection...), played with MultiPlay / Play to recording drivers.Out fakes; selections: all, subsets, single, out of range, repeated; "
-                       "port maps: own, shared, default only, default+some, some without default (+foreign key), default = mapped, Play(out). TLC searches for an attribution of "
+                       "port maps: own, shared, default only, default+some, some without default (+foreign key), default = mapped, Play(out); one LARGE play (140 000 / 262 144 "
+                       "distinguishable events in one track, 1000 per tick, two small tracks beside it) judged with the attribution its bytes determine "
+                       "(Trace_PlayerBig / Player!AttrLin, which MC_Player shows equal to the text of the property). TLC searches for an attribution of "
                        "the observed sends to track heads that is a behaviour of spec/Player.tla. distinct by file+selection+map hash; non-trivial = >= 13 playable events on one tick")
     ctx.cov["checker_cmd"] = ("tlc MC_Player*.cfg (Skip/Send: stable merge, exactly once, no meta, port, never early, no deadlock, acceptor complete) ; "
-                              "tlc MC_PlayerJudge*.cfg (acceptor sound) ; tlc Trace_Player (search, -workers 1, registers + POSTCONDITION)")
+                              "tlc MC_PlayerJudge*.cfg (acceptor sound; AttrAgrees) ; tlc Trace_Player (search, -workers 1, registers + POSTCONDITION) ; tlc Trace_PlayerBig")
     ctx.cov["trusted_base"] = ["TLC", "spec/Player.tla as the meaning of C12 / DESIGN C.5", "harness recording (fake drivers.Out, monotonic clock, t0 immediately before the call)",
                                "scheduled times are the library's own TracksReader.Do AbsMicroSeconds (their correctness is C11)"]
     ctx.assumptions += ["sysex / escape events (F0, F7) may be sent in place or skipped: the property is silent (the library documents them as playable)",
@@ -128,13 +160,29 @@ def run(ctx):
         if not feats.get(need):
             raise Machinery("generator did not produce feature %s" % need)
 
+    # large plays: more events than a 16-bit (17-bit) position holds
+    if True:
+        big = gen_huge(ctx, 140000 if q else 262144, ctx.seed)
+        for idx, info in judge_big(ctx, big):
+            r = big[idx]
+            fails.append(Failure("bigplay:" + info["what"], "large play (%d events in track 1, %d sends): %s" % (len(r["tracks"][0]), len(r["sends"]), json.dumps(info)[:700]),
+                                 {"family": "playerbig", "record": {k: r[k] for k in ("ev", "id", "mode", "file", "sel", "ports", "prior", "big", "feat")}}))
+        ctx.cov["large_plays"] = [{"events": sum(len(t) for t in r["tracks"]), "sends": len(r["sends"])} for r in big]
+        ctx.cov["sends_observed"] += sum(len(r["sends"]) for r in big)
+
     def confirm(f):
+        if f.payload["family"] == "playerbig":
+            return rerun_big(ctx, f.payload["record"])[0]
         return rerun(ctx, f.payload["record"])[0]
-    confirm.in_context = lambda before, f: rerun(ctx, f.payload["record"], before)[0]
+    confirm.in_context = lambda before, f: (f.payload["family"] != "playerbig") and rerun(ctx, f.payload["record"], before)[0]
     ctx.report(fails, confirm)
 
 
 def replay(ctx, payload):
+    if payload["payload"].get("family") == "playerbig":
+        ok, new, info = rerun_big(ctx, payload["payload"]["record"])
+        print(json.dumps({"info": info})[:3000])
+        return ok
     ok, new, info = rerun(ctx, payload["payload"]["record"], payload["payload"].get("context") or ())
     print(json.dumps({"info": info})[:3000])
     return ok
